@@ -10,6 +10,32 @@ FLIP = q.self_field('flip')
 FLOP = q.self_field('flop')
 
 
+class _Rename15:
+    def __init__(self, rep, old, new):
+        self._rep, self._old, self._new = rep, old, new
+
+    def _r(self, r):
+        return self._new if r == self._old else r
+
+    def rule(self, rid, text):
+        pass
+
+    def ok(self, rule, *a, **k):
+        self._rep.ok(self._r(rule), *a, **k)
+
+    def violation(self, rule, *a, **k):
+        self._rep.violation(self._r(rule), *a, **k)
+
+    def check(self, cond, rule, *a, **k):
+        return self._rep.check(cond, self._r(rule), *a, **k)
+
+    def floor(self, rule, *a, **k):
+        self._rep.floor(self._r(rule), *a, **k)
+
+    def __getattr__(self, n):
+        return getattr(self._rep, n)
+
+
 def r1_add_or_replace(ctx, f, rep, eff):
     rep.rule('C15-R1', 'one entry per key, freshest wins: Broadcasts.flip gains entries only in add_or_replace (and by '
                        'append(flop)), where retain(|n| !item.invalidates(&n.item)) precedes the push; the new entry starts '
@@ -175,6 +201,11 @@ def r2_accounting(ctx, f, rep):
                     if any(x['kind'] == 'call' and x['decl'] == 'bytes::BufMut::put_slice' for x in evs):
                         rep.violation('C15-R2', fn, 'write-without-fit-test', 'an entry is written without a fit test',
                                       site=pop['span'])
+                    elif (e_ < len(p.events) or p.end == 'return') and not any(
+                            x['kind'] == 'call' and x['res'].endswith('BinaryHeap::push') for x in evs):
+                        # popped, not written, not put back: the entry is lost (a `break` between pop and fit test)
+                        rep.violation('C15-R2', fn, 'popped-entry-dropped', 'an entry is popped from the backlog and the loop is '
+                                      'left (or goes on) without writing it or putting it back', site=pop['span'])
                     continue
                 puts = [x for x in evs if x['kind'] == 'call' and x['decl'] == 'bytes::BufMut::put_slice']
                 pref = [x for x in evs if x['kind'] == 'call' and x['decl'] == 'bytes::BufMut::put_u16']
@@ -555,6 +586,10 @@ def check(ctx):
         _common.check_derives(f, rep, 'C15-R0')
         eff = Effects(f)
         r1_add_or_replace(ctx, f, rep, eff)
+        # the explicit enqueue sites: Down(previous identity) in change_identity exactly when the instance was not already
+        # Undead (its Down is then in the backlog already - a second entry restarts the transmission count): C10-R4
+        from . import c10 as _c10
+        _c10.r4_rejoin_or_defunct(ctx, f, _Rename15(rep, 'C10-R4', 'C15-R5'))
         r2_accounting(ctx, f, rep)
         r3_order(ctx, f, rep)
         r4_r5_consumers_enqueuers(ctx, f, rep)
